@@ -7,6 +7,10 @@ import (
 	"strings"
 )
 
+func init() {
+	registerExtractor("handshake", []string{"GoPlugin.Model.Handshake"}, extractHandshake)
+}
+
 // extractHandshake: facts of Client.Start's line parsing (C01/C05).
 func extractHandshake(p *pkgs, f *facts) {
 	start := p.fn("Client", "Start")
